@@ -654,6 +654,45 @@ pub fn case_strategy(gzip: bool, with_faults: bool, max_ops: usize) -> BoxedStra
         .boxed()
 }
 
+/// Histories made of a short pattern repeated many times (the shape of event-stream style
+/// producers: small write + flush, again and again), followed by a few more operations.
+pub fn repeated_pattern_strategy(gzip: bool) -> BoxedStrategy<SCase> {
+    let chunks: &'static [usize] = if gzip { GZ_CHUNKS } else { RAW_CHUNKS };
+    (proptest::sample::select(chunks), 1u32..=9, payload_strategy(), 0usize..=2)
+        .prop_flat_map(move |(chunk, level, payload, extra_polls)| {
+            (
+                vec(op_strategy(chunk, false, gzip), 1..=3),
+                2usize..=64,
+                vec(op_strategy(chunk, false, gzip), 0..5),
+                Just((chunk, level, payload, extra_polls)),
+            )
+        })
+        .prop_map(move |(pattern, times, suffix, (chunk, level, payload, extra_polls))| {
+            let mut ops = Vec::new();
+            let mut bytes = 0u64;
+            'outer: for _ in 0..times {
+                for o in &pattern {
+                    if let Op::Write(n) | Op::WriteAll(n) = o {
+                        bytes += *n as u64;
+                    }
+                    if bytes > 600_000 || ops.len() > 200 {
+                        break 'outer;
+                    }
+                    ops.push(*o);
+                }
+            }
+            ops.extend(suffix);
+            SCase {
+                gzip: if gzip { Some(level) } else { None },
+                chunk,
+                payload,
+                ops,
+                extra_polls,
+            }
+        })
+        .boxed()
+}
+
 /// All op sequences of length `n` over the small alphabet for chunk size `c`.
 pub fn enumerate_ops(c: usize, n: usize, f: &mut dyn FnMut(&[Op])) {
     let mut alphabet: Vec<Op> = Vec::new();
@@ -754,6 +793,7 @@ pub fn run_c08(cx: &Cx) -> Acc {
     }));
     let n = cx.tier.pick(1u64, 20u64);
     acc.merge(par_proptest(cx, "random", 100_000 * n, || case_strategy(false, false, 40), |c, acc| check_stream(c, acc, false)));
+    acc.merge(par_proptest(cx, "repeated-pattern", 40_000 * n, || repeated_pattern_strategy(false), |c, acc| check_stream(c, acc, false)));
     acc
 }
 
@@ -776,6 +816,7 @@ pub fn run_c09(cx: &Cx) -> Acc {
     }));
     let n = cx.tier.pick(1u64, 20u64);
     acc.merge(par_proptest(cx, "random", 20_000 * n, || case_strategy(true, false, 40), |c, acc| check_stream(c, acc, true)));
+    acc.merge(par_proptest(cx, "repeated-pattern", 6_000 * n, || repeated_pattern_strategy(true), |c, acc| check_stream(c, acc, true)));
     // Large payloads (up to 256 KiB) in a few writes.
     acc.merge(par_proptest(
         cx,
